@@ -43,7 +43,11 @@ impl Slot {
             0 => String::new(),
             1 => "#[serde(default)]\n".into(),
             2 => format!("#[serde(rename = \"{}Renamed\", default)]\n", self.ident),
-            _ => "#[serde(skip_serializing_if = \"is_default\", default)]\n".into(),
+            3 => "#[serde(skip_serializing_if = \"is_default\", default)]\n".into(),
+            // serde arguments that have nothing to do with optionality: the field stays as required as its type says
+            4 => "#[serde(skip_serializing_if = \"is_default\")]\n".into(),
+            5 => format!("#[serde(rename = \"{}Renamed\", skip_serializing_if = \"Vec::is_empty\")]\n", self.ident),
+            _ => "#[serde(alias = \"otherName\", deserialize_with = \"de_helper\")]\n".into(),
         };
         if self.ovr {
             format!("{d}#[typeshare(swift(type = \"OvrT\"), kotlin(type = \"OvrT\"), typescript(type = \"OvrT\"), go(type = \"OvrT\"), scala(type = \"OvrT\"))]\n")
@@ -52,7 +56,10 @@ impl Slot {
         }
     }
     fn optional(&self) -> bool {
-        self.opt > 0 || self.default > 0
+        self.opt > 0 || self.has_default()
+    }
+    fn has_default(&self) -> bool {
+        matches!(self.default, 1..=3)
     }
 }
 
@@ -95,7 +102,7 @@ fn gen_model(rng: &mut Rng, exhaustive_index: Option<usize>) -> Model {
         push(0, 0, 0, &mut v); // required sibling
         if all {
             for opt in 0..3u8 {
-                for default in 0..4u8 {
+                for default in 0..7u8 {
                     if opt == 0 && default == 0 {
                         continue;
                     }
@@ -108,7 +115,7 @@ fn gen_model(rng: &mut Rng, exhaustive_index: Option<usize>) -> Model {
             }
         } else {
             for _ in 0..rng.range(1, 4) {
-                push(rng.below(3) as u8, rng.below(4) as u8, rng.below(4) as u8, &mut v);
+                push(rng.below(3) as u8, rng.below(7) as u8, rng.below(4) as u8, &mut v);
             }
         }
         v
@@ -247,7 +254,7 @@ fn check_group(case: &Case<Model>, rep: &mut Report, position: &str, grp: &[Slot
         if got != want {
             let dir = if sl.optional() { "optional-field-not-marked" } else { "required-field-marked-optional" };
             rep.violate(
-                format!("C04|{lname}|{position}|{dir}|opt{}|{}", sl.opt, if sl.default > 0 { "default" } else { "no-default" }),
+                format!("C04|{lname}|{position}|{dir}|opt{}|{}", sl.opt, if sl.has_default() { "default" } else { "no-default" }),
                 format!("{position} `{}: {}` {}: markers {:?}, expected {:?}", sl.ident, sl.ty(), sl.attrs().trim(), got, want),
                 case.detail(json!({"field": sl.ident, "rust_type": sl.ty(), "attrs": sl.attrs(), "markers": got, "expected": want})),
             );
@@ -255,7 +262,7 @@ fn check_group(case: &Case<Model>, rep: &mut Report, position: &str, grp: &[Slot
         let t = strip_nullable(&ff.ty);
         if t != req_ty {
             rep.violate(
-                format!("C04|{lname}|{position}|type-changed-by-marker|opt{}|{}", sl.opt, if sl.default > 0 { "default" } else { "no-default" }),
+                format!("C04|{lname}|{position}|type-changed-by-marker|opt{}|{}", sl.opt, if sl.has_default() { "default" } else { "no-default" }),
                 format!("{position} `{}: {}`: type {} differs from the required sibling's {}", sl.ident, sl.ty(), t.show(), req_ty.show()),
                 case.detail(json!({"field": sl.ident, "type": t.show(), "sibling_type": req_ty.show()})),
             );
@@ -409,7 +416,7 @@ pub fn run(ctx: &Ctx) -> (Spec, Report) {
     );
     let spec = Spec {
         level: "exploration",
-        rule: format!("{n} programs: for each base type T (primitives, containers incl. slices, user types, generic parameters) the full product {{T, Option<T>, Option<Option<T>>}} x {{no default, #[serde(default)], merged with rename, merged with skip_serializing_if}} plus Box/Arc-wrapped forms and groups whose type is replaced by a per-language type override (first {n_exh} programs enumerate it per base type), then random compositions; positions: struct field, struct-variant field, newtype payload, alias; 6 languages (Go with and without `no_pointer_slice`); oracle: marker set per language idiom from `is_option || has_default`, and type equality with a required sibling of the same T; distinct = (language, position, opt/default/wrap cell, base-type class)"),
+        rule: format!("{n} programs: for each base type T (primitives, containers incl. slices, user types, generic parameters) the full product {{T, Option<T>, Option<Option<T>>}} x {{no default, #[serde(default)], merged with rename, merged with skip_serializing_if, and three attribute sets without `default` (skip_serializing_if alone, with rename, alias + deserialize_with)}} plus Box/Arc-wrapped forms and groups whose type is replaced by a per-language type override (first {n_exh} programs enumerate it per base type), then random compositions; positions: struct field, struct-variant field, newtype payload, alias; 6 languages (Go with and without `no_pointer_slice`); oracle: marker set per language idiom from `is_option || has_default`, and type equality with a required sibling of the same T; distinct = (language, position, opt/default/wrap cell, base-type class)"),
         assumptions: vec![
             "double options must stay distinguishable only in TypeScript (`?` + `| null`), as the property says".into(),
             "Go newtype payloads are judged on type equality only: the accessor's pointer is an implementation detail of struct-typed payloads".into(),
